@@ -7,6 +7,7 @@ memoised on their argument terms, so all three runs see the same kernel
 outcomes and only the *plumbing* of the check can make a difference.
 """
 import itertools
+import random
 
 import z3
 
@@ -246,7 +247,7 @@ def make_check(rsc, name, args):
   return cls(*args)
 
 
-def run_three(e, pb, rsc, chk, ranges):
+def run_three(e, pb, rsc, chk, ranges, fresh=None):
   """Runs chk.Check on [k1,k2], [k2], [k2,k1]; returns the three batches and
   the attach recorder."""
   ns = [ivar(e, 'n%d' % i, lo=lo, hi=hi) for i, (lo, hi) in enumerate(ranges)]
@@ -266,6 +267,13 @@ def run_three(e, pb, rsc, chk, ranges):
   rets = []
   for batch in (A, B, C):
     rets.append(chk.Check(batch))
+  if fresh is not None:
+    # the same artifacts through check objects without history: k1 alone,
+    # [k2, k1] and k2 alone, each on its own fresh object
+    D, E, F = [key(0)], [key(1), key(0)], [key(1)]
+    e.notes.update(D=D, E=E, F=F)
+    for batch in (D, E, F):
+      rets.append(fresh().Check(batch))
   return rets
 
 
@@ -335,6 +343,23 @@ def witness_pool():
   pool.append(('smooth', ps * np_(2**34 + 99)))
   pool.append(('lowhw', np_(2**33 + 2**5) * np_(2**34 + 2**7)))
   pool.append(('big_strong', np_(2**100 + 555) * np_(2**101 + 777)))
+  # a prime with an 11-bit pattern and swapped 16-bit words: factored by
+  # CheckPermutedBitPatterns through a 171-bit denominator (allowed for a
+  # 2048-bit modulus only); listed after the smaller keys on purpose
+  rnd = random.Random(17)
+  pat = rnd.getrandbits(11) | 1
+  x = 0
+  for i in range(0, 1024 + 11, 11):
+    x |= pat << i
+  x &= (1 << 1024) - 1
+  words = [(x >> (i * 16)) & 0xffff for i in range(64)]
+  for i in range(0, 63, 2):
+    words[i], words[i + 1] = words[i + 1], words[i]
+  y = sum(w << (i * 16) for i, w in enumerate(words)) | (3 << 1022)
+  pool.append(('healthy1024', np_(rnd.getrandbits(512) | (3 << 510)) *
+               np_(rnd.getrandbits(512) | (3 << 510))))
+  pool.append(('permuted11', np_(y) * np_(rnd.getrandbits(1024) |
+                                          (3 << 1022))))
   return pool
 
 
@@ -416,7 +441,8 @@ def concrete_oracle(check_name, ctor_args_list=None, max_pairs=200):
     for nm, n in pool:
       k = mk(n)
       try:
-        ret = chk.Check([k])
+        # no history: a fresh check object per key
+        ret = getattr(rsc, check_name)(*args).Check([k])
       except Exception as ex:  # pylint: disable=broad-except
         problems.append('%s%r raised on [%s]: %r' % (check_name, args, nm, ex))
         continue
@@ -500,10 +526,20 @@ def rsa_single_relational(rec, seed, check, variant, aspects, prop):
     if check == 'CheckROCAVariant':
       c_._fcv = _Detector('ROCAKeyVariantDetector')
     chk.severity = c_.severity
+
+    def fresh():
+      f_ = make_check(rsc, check, args)
+      if check == 'CheckROCA':
+        f_._fc = _Detector('ROCAKeyDetector')
+      if check == 'CheckROCAVariant':
+        f_._fcv = _Detector('ROCAKeyVariantDetector')
+      return f_
+
     att = Attach()
     att_holder['att'] = att
     with stubs.patched(util, AttachFactors=att):
-      rets = run_three(e, pb, rsc, c_, RANGES)
+      rets = run_three(e, pb, rsc, c_, RANGES,
+                       fresh if 'c17' in aspects else None)
     e.notes['att'] = att
     return rets
 
@@ -585,7 +621,11 @@ def rsa_single_relational(rec, seed, check, variant, aspects, prop):
           fs = [c[2] for c in att.calls if c[0] is k.test_info]
           return ents, fs
 
-        for group in ([A[1], B[0], C[0]], [A[0], C[1]]):
+        groups = [[A[1], B[0], C[0]], [A[0], C[1]]]
+        if 'D' in e.notes:
+          D, E, F = e.notes['D'], e.notes['E'], e.notes['F']
+          groups = [[F[0], A[1], B[0], C[0], E[0]], [D[0], A[0], C[1], E[1]]]
+        for group in groups:
           v0 = view(group[0])
           for other in group[1:]:
             v1 = view(other)
